@@ -157,7 +157,13 @@ def install(I):
     E["math.inf"] = math.inf
     E["math.sqrt"] = Builtin("math.sqrt", lambda i, a, k: i.sqrt_model(a[0]))
     E["math.isclose"] = Builtin("math.isclose", lambda i, a, k: (_ for _ in ()).throw(Unsupported("math.isclose")))
-    E["weakref.ref"] = Builtin("weakref.ref", _weakref, "weakref: a referent reachable from the verified state is alive")
+    WR = mkcls("weakref")
+    WR.ns["__pyvc_new__"] = lambda i, cls, a, k: Obj(WR, {"ref": a[0]}, tag="weakref")
+    WR.ns["__call__"] = Builtin("weakref.__call__", lambda i, a, k: a[0].fields["ref"],
+                                "weakref: a referent reachable from the verified state is alive")
+    E["weakref.ref"] = WR
+    E["weakref.ReferenceType"] = WR
+    I.WeakrefCls = WR
     E["attrs.field"] = Builtin("attrs.field", lambda i, a, k: (_ for _ in ()).throw(Unsupported("attrs.field outside class body")))
     E["attrs.Factory"] = Builtin("attrs.Factory", lambda i, a, k: Obj(obj, {"factory": a[0]}, tag="attrs.Factory"))
     E["attrs.define"] = Builtin("attrs.define", lambda i, a, k: a[0] if a else Builtin("define.deco", lambda i2, a2, k2: a2[0]))
